@@ -118,6 +118,8 @@ fn scenarios() -> Vec<Sc> {
 }
 
 const E2_CASES: u64 = 6;
+/// starvation inside a processing chunk: internal buffer {4,8} x frames available {2..ibs-1} x stalled callbacks {0,1,2}
+const STARVE_CASES: u64 = 2;
 
 impl Check for C10 {
 	fn id(&self) -> &'static str {
@@ -127,12 +129,14 @@ impl Check for C10 {
 		Level::FaultEnumeration
 	}
 	fn num_cases(&self, _tier: Tier) -> u64 {
-		scenarios().len() as u64 + E2_CASES
+		scenarios().len() as u64 + E2_CASES + STARVE_CASES
 	}
 	fn describe(&self, _tier: Tier, idx: u64) -> String {
 		let sc = scenarios();
 		if (idx as usize) < sc.len() {
 			format!("{:?}", sc[idx as usize])
+		} else if idx >= sc.len() as u64 + E2_CASES {
+			format!("starvation inside a chunk: internal buffer {}: the ring holds 2..ibs-1 frames when a full-size callback begins, 0..2 further callbacks are starved completely, then the decoder catches up (40-frame stream with non-linear index codes)", [4, 8][(idx - sc.len() as u64 - E2_CASES) as usize])
 		} else {
 			format!("E2 interleavings: {}", e2_name(idx - sc.len() as u64))
 		}
@@ -142,6 +146,8 @@ impl Check for C10 {
 		if (idx as usize) < sc.len() {
 			let s = sc[idx as usize];
 			format!("event {:?} place {:?}", s.event, s.place)
+		} else if idx >= sc.len() as u64 + E2_CASES {
+			"starvation inside a chunk".to_string()
 		} else {
 			format!("E2 {}", e2_name(idx - sc.len() as u64))
 		}
@@ -170,10 +176,122 @@ impl Check for C10 {
 			if let Err(p) = catch(|| run(&s, ctx)) {
 				ctx.fail(format!("panic: {} :: {:?}", p, s.event), format!("{:?}", s));
 			}
+		} else if idx >= sc.len() as u64 + E2_CASES {
+			pacer::set_mode(pacer::Mode::Pacer);
+			let ibs = [4usize, 8][(idx - sc.len() as u64 - E2_CASES) as usize];
+			if let Err(p) = catch(|| starve_mid_chunk(ibs, ctx)) {
+				ctx.fail(format!("panic: {} :: starvation inside a chunk", p), format!("internal buffer {}", ibs));
+			}
 		} else {
 			e2(tier, idx - sc.len() as u64, ctx);
 		}
 	}
+}
+
+/// A decoder that is merely slow: the ring runs dry in the middle of a processing chunk, stays dry for 0..2 callbacks,
+/// then fills again. What is heard is source frames, in order, nothing repeated or foreign, at most one frame lost per
+/// gap, and the stream is played to its end.
+fn starve_mid_chunk(ibs: usize, ctx: &mut Ctx) {
+	const N: usize = 40;
+	let codes: Vec<f32> = (0..N).map(|i| (1 + (i * 7) % N) as f32 / 64.0).collect();
+	for avail in 2..ibs {
+		for stalled in 0..3usize {
+			for first_full in [false, true] {
+				ctx.evals += 1;
+				let desc = || format!("40-frame stream (frame i = (1 + 7i mod 40)/64), internal buffer {} = callback size; {}the decoder has delivered {} frames when a callback begins, {} further callback(s) get nothing, then it runs ahead", ibs, if first_full { "one full callback first; then " } else { "" }, avail, stalled);
+				let mut m = rig::manager(SR, ibs, rig::caps(2), MainTrackBuilder::new());
+				let first = pacer::count();
+				let frames: Vec<Frame> = codes.iter().map(|c| Frame::new(*c, -*c / 2.0)).collect();
+				let (dec, stats) = ScriptedDecoder::new(frames, SR, vec![1, 3, 2], 1);
+				let mut h = match m.play(StreamingSoundData::from_decoder(dec)) {
+					Ok(h) => h,
+					Err(_) => {
+						ctx.fail("play failed :: starvation inside a chunk", desc());
+						continue;
+					}
+				};
+				let mut buf = vec![0.0f32; ibs * 2];
+				let mut heard: Vec<f32> = vec![];
+				let mut plan: Vec<u64> = vec![];
+				if first_full {
+					plan.push(ibs as u64 + 4);
+				}
+				plan.push(if first_full { (avail as u64).saturating_sub(4) } else { avail as u64 });
+				for _ in 0..stalled {
+					plan.push(0);
+				}
+				for _ in 0..(N / ibs + 6) {
+					plan.push(ibs as u64 + 8);
+				}
+				let mut ok = true;
+				for steps in plan {
+					if steps > 0 {
+						pacer::step(first, steps);
+					}
+					let rep = rig::callback(&mut m, &mut buf, ibs, 2);
+					if !rep.ok() {
+						ctx.fail(format!("callback monitor: {:?} :: starvation inside a chunk", rep.panic.clone().or(rep.bad_sample.clone())), desc());
+						ok = false;
+						break;
+					}
+					for i in 0..ibs {
+						heard.push(buf[2 * i]);
+					}
+				}
+				if ok {
+					let idx_of = |v: f32| codes.iter().position(|c| *c == v);
+					let mut last: Option<usize> = None;
+					let mut gap = false;
+					let mut bad = None;
+					for (k, v) in heard.iter().enumerate() {
+						if *v == 0.0 {
+							gap = true;
+							continue;
+						}
+						match idx_of(*v) {
+							None => {
+								bad = Some(format!("output frame {} = {} is not a frame of the source", k, v));
+								break;
+							}
+							Some(i) => {
+								if let Some(l) = last {
+									let okk = i == l + 1 || (gap && i == l + 2);
+									if !okk {
+										bad = Some(format!("output frame {}: source frame {} after source frame {} ({})", k, i, l, if i <= l { "repeated / reordered" } else { "frames skipped" }));
+										break;
+									}
+								} else if i > 1 {
+									bad = Some(format!("playback begins at source frame {}", i));
+									break;
+								}
+								last = Some(i);
+								gap = false;
+							}
+						}
+					}
+					if bad.is_none() && last != Some(N - 1) {
+						bad = Some(format!("the stream was not played to its end (last source frame heard: {:?})", last));
+					}
+					if bad.is_none() && h.state() != PlaybackState::Stopped {
+						bad = Some(format!("the sound is {:?} long after its last frame", h.state()));
+					}
+					if let Some(b) = bad {
+						ctx.fail(
+							"a slow decoder causes more than a gap of silence (foreign, repeated, reordered or skipped frames) :: starvation inside a chunk",
+							format!("{}; {}; heard (x64) {:?}", desc(), b, heard.iter().map(|v| (v * 64.0) as i32).collect::<Vec<_>>()),
+						);
+					}
+				}
+				ctx.nontrivial_extra += 1;
+				ctx.state(hash64(&("starve", ibs, avail, stalled, first_full)));
+				h.stop(tw(0.0, SR));
+				rig::callback(&mut m, &mut buf, ibs, 2);
+				drop(m);
+				crate::probes::reap_decoder(first, &stats);
+			}
+		}
+	}
+	ctx.outcome(hash64(&("starve", ibs)));
 }
 
 fn code(i: usize) -> Frame {
@@ -593,6 +711,8 @@ fn e2(tier: Tier, which: u64, ctx: &mut Ctx) {
 		panics: Vec<String>,
 		/// the thread only ended after the epilogue created another sub-track
 		lazily: bool,
+		/// the handle reported Stopped at a moment when no error could be popped (and none had been popped before)
+		stopped_without_error: bool,
 	}
 	let mut body = |prefix: &[u8]| -> (sched::RunResult, Obs) {
 		let fault = if which == 3 { Fault::Decode(3) } else { Fault::None };
@@ -643,9 +763,13 @@ fn e2(tier: Tier, which: u64, ctx: &mut Ctx) {
 					}
 					o.heard.push(idx_of(buf[0]));
 					o.heard.push(idx_of(buf[2]));
-					o.states.push(format!("{:?}", h.state()));
+					let st = h.state();
+					o.states.push(format!("{:?}", st));
 					while let Some(e) = h.pop_error() {
 						o.popped.push(format!("{:?}", e));
+					}
+					if st == PlaybackState::Stopped && o.popped.is_empty() {
+						o.stopped_without_error = true;
 					}
 				}
 				if which == 5 {
@@ -754,6 +878,9 @@ fn e2(tier: Tier, which: u64, ctx: &mut Ctx) {
 			}
 			if o.states.last().map(|s| s.as_str()) != Some("Stopped") {
 				fails.push((format!("the sound is not Stopped after a decode error :: E2 {}", name), sd()));
+			}
+			if o.stopped_without_error {
+				fails.push((format!("the sound is Stopped because of a decode error, but the error cannot be popped from the handle yet :: E2 {}", name), sd()));
 			}
 		}
 		if which == 1 && o.states.last().map(|s| s.as_str()) != Some("Stopped") {
